@@ -12,7 +12,7 @@ subprocess.check_call(["git", "-C", "/repo", "worktree", "add", "--detach", wt, 
 head = subprocess.check_output(["git", "-C", "/repo", "rev-parse", "--short", "HEAD"], text=True).strip()
 ev = tempfile.mkdtemp(prefix="oxidd-matrix-ev-")
 env = dict(os.environ, OXIDD_REPO=wt, VERIF_EVIDENCE_DIR=ev)
-mpath = os.path.join(V, "seeded", "MATRIX.json")
+mpath = os.environ.get("MATRIX_JSON") or os.path.join(V, "seeded", "MATRIX.json")
 matrix = json.load(open(mpath)) if os.path.exists(mpath) else {}
 try:
     for sd in seeds:
@@ -54,4 +54,5 @@ for name in sorted(matrix):
     f = matrix[name].get("fired", {})
     lines.append("| %s | %s | %s |" % (name, meta.get("property", "?"),
                  "; ".join("%s: %s" % (p, ", ".join(k.split(":")[0] for k in ks[:2])) for p, ks in sorted(f.items())) or "**not caught**"))
-open(os.path.join(V, "seeded", "MATRIX.md"), "w").write("\n".join(lines) + "\n")
+if not os.environ.get("MATRIX_JSON"):
+    open(os.path.join(V, "seeded", "MATRIX.md"), "w").write("\n".join(lines) + "\n")
